@@ -182,6 +182,26 @@ func opBgKsVerify(args []string) string {
 	return ErrClass(ks.Verify(UnH(args[10])), ksErrTable)
 }
 
+// set_signature keyspec pubkind a b signalgo hashalgo msg seed: KeySignature.SetSignature with a real key;
+// the observation leaves out the signature bytes (they are the signer's, not the library's)
+func opSetSignature(args []string) string {
+	priv := parsePriv(args[0])
+	cbnt.RandReader = rngReader{NewRng(UnN(args[7]))}
+	var ks cbnt.KeySignature
+	ks.Version, ks.Key.Version, ks.Signature.Version = 0x55, 0x55, 0x55
+	ks.Signature.KeySize, ks.Signature.SigScheme = 0x5555, 0x55
+	err := ks.SetSignature(cbnt.Algorithm(UnN(args[4])), cbnt.Algorithm(UnN(args[5])), priv, exact(UnH(args[6])))
+	if err != nil {
+		return ErrClass(err, [][2]string{
+			{"unable to set public key", "4"},
+			{"unable to construct the signature data", "5"},
+			{"unable to set the signature", "4"},
+		})
+	}
+	return fmt.Sprintf("ok %x %x %x %x %s %x %x %x %x %x", ks.Version, uint16(ks.Key.KeyAlg), ks.Key.Version, uint16(ks.Key.KeySize), H(ks.Key.Data),
+		uint16(ks.Signature.SigScheme), ks.Signature.Version, uint16(ks.Signature.KeySize), uint16(ks.Signature.HashAlg), len(ks.Signature.Data))
+}
+
 // ---------- BPM key hash ----------
 
 var bpmErrTable = [][2]string{
@@ -492,6 +512,7 @@ func main() {
 	Register("bg_pub_key", opBgPubKey)
 	Register("set_sig", opSetSig)
 	Register("sig_data", opSigData)
+	Register("set_signature", opSetSignature)
 	Register("ks_verify", opKsVerify)
 	Register("bg_ks_verify", opBgKsVerify)
 	Register("bpmkey", opBpmKey)
